@@ -9,6 +9,12 @@ from pyvc.interp import TraceEv, MISSING
 from pyvc.ctx import Unsupported
 
 
+def bound(quick, thorough):
+    """size bound of a BOUNDED check: the thorough tier explores larger collections"""
+    import os
+    return thorough if os.environ.get("PYVC_TIER") == "thorough" else quick
+
+
 def emit(I, _evname, **args):
     ev = TraceEv(_evname, args)
     I.trace.append(ev)
